@@ -135,6 +135,22 @@ func C18(r *h.Run) {
 		texts = append(texts, "code_"+n)
 	}
 	texts = append(texts, "", "code", "code_", "Code_17", "CODE_17", "code-17", "codes_17", "code__17", "ok", "OK", "0", "17")
+	// every spelling at edit distance one from a defined name (a dropped, doubled or
+	// swapped letter: "cancelled"), and the spellings other systems use for the same codes
+	for _, n := range codeNames {
+		for i := 0; i < len(n); i++ {
+			texts = append(texts, n[:i]+n[i+1:], n[:i+1]+n[i:])
+			if i+1 < len(n) {
+				texts = append(texts, n[:i]+string(n[i+1])+string(n[i])+n[i+2:])
+			}
+		}
+		camel := ""
+		for _, part := range strings.Split(n, "_") {
+			camel += strings.ToUpper(part[:1]) + part[1:]
+		}
+		texts = append(texts, camel, strings.ToLower(camel[:1])+camel[1:], strings.ReplaceAll(n, "_", " "), strings.ReplaceAll(n, "_", ""), "code_"+n, strings.ToUpper(n[:1])+n[1:])
+	}
+	texts = append(texts, "cancelled", "CANCELLED", "Cancelled", "ok", "OK", "Ok", "success", "none", "error", "failed-precondition", "unauthorised", "unauthorized", "not-found", "notfound", "timeout", "deadline")
 	tr := rng.Fork("codetext")
 	for i := 0; i < r.N(200, 2000); i++ {
 		switch tr.Intn(3) {
